@@ -553,7 +553,7 @@ def plan_c08(tier, seed):
         runs = shards("std-debug", "c08", 12, ["mode=dfs", "seed=%d" % seed], timeout=900)
         runs.append(Run("std-debug", "c08", ["mode=sample", "seed=%d" % seed, "cases=3000"], timeout=600))
         runs.append(Run("std-release", "c08", ["mode=free", "seed=%d" % seed, "iters=20000"], timeout=600))
-        runs.append(Run("miri", "c08", ["mode=free", "seed=%d" % seed, "iters=4"], timeout=900, miri_flags="-Zmiri-many-seeds=0..16"))
+        runs.append(Run("miri", "c08", ["mode=free", "seed=%d" % seed, "iters=4"], timeout=2400, miri_flags="-Zmiri-many-seeds=0..16"))
         return runs
     runs = shards("std-debug", "c08", 12, ["mode=dfs", "seed=%d" % seed], timeout=3000)
     runs += shards("std-release", "c08", 12, ["mode=dfs", "seed=%d" % seed], timeout=3000)
